@@ -331,6 +331,31 @@ impl std::fmt::Display for LoadError {
     }
 }
 
+/// Check that `v` is spelled like a YAML 1.2 core schema decimal number:
+/// `[-+]? ( \. [0-9]+ | [0-9]+ ( \. [0-9]* )? ) ( [eE] [-+]? [0-9]+ )?`.
+///
+/// `str::parse::<f64>` accepts more than that (`inf`, `infinity`, `nan` in any case).
+fn is_core_schema_number(v: &str) -> bool {
+    let s = v.strip_prefix(['-', '+']).unwrap_or(v);
+    let (mantissa, exponent) = match s.find(['e', 'E']) {
+        Some(pos) => (&s[..pos], Some(&s[pos + 1..])),
+        None => (s, None),
+    };
+    let (int, frac) = match mantissa.find('.') {
+        Some(pos) => (&mantissa[..pos], Some(&mantissa[pos + 1..])),
+        None => (mantissa, None),
+    };
+    let digits = |s: &str| s.bytes().all(|b| b.is_ascii_digit());
+    let mantissa_ok = digits(int)
+        && frac.map_or(true, digits)
+        && (!int.is_empty() || frac.is_some_and(|f| !f.is_empty()));
+    let exponent_ok = exponent.map_or(true, |e| {
+        let e = e.strip_prefix(['-', '+']).unwrap_or(e);
+        !e.is_empty() && digits(e)
+    });
+    mantissa_ok && exponent_ok
+}
+
 // parse f64 as Core schema
 // See: https://github.com/chyh1990/yaml-rust/issues/51
 pub(crate) fn parse_f64(v: &str) -> Option<f64> {
@@ -338,6 +363,7 @@ pub(crate) fn parse_f64(v: &str) -> Option<f64> {
         ".inf" | ".Inf" | ".INF" | "+.inf" | "+.Inf" | "+.INF" => Some(f64::INFINITY),
         "-.inf" | "-.Inf" | "-.INF" => Some(f64::NEG_INFINITY),
         ".nan" | ".NaN" | ".NAN" => Some(f64::NAN),
-        _ => v.parse::<f64>().ok(),
+        _ if is_core_schema_number(v) => v.parse::<f64>().ok(),
+        _ => None,
     }
 }
